@@ -624,7 +624,49 @@ func TestC05_Produced(t *testing.T) {
 	cs := c05Curves()
 	gen.Run(t, "C05", func(g *gen.G) {
 		swapped := mustSwapped(g)
-		switch g.Int("what", 0, 3) {
+		switch g.Int("what", 0, 4) {
+		case 4:
+			// keys produced by a DKG run: a plain Feldman VSS participant that is dealt either the honest vector or a vector
+			// whose first two entries were moved outside G2 by amounts that cancel at the participant's abscissa (its
+			// share still matches).  Whatever End returns must be canonical G2 elements that decode back.
+			n := g.Int("n", 2, 5)
+			th := g.Int("t", 1, n-1)
+			me := g.Pick("me", n)
+			dealer := (me + 1 + g.Pick("dealerOffset", n-1)) % n
+			hon := vssDeal(g, n, th, dealer, g.Bytes("seed", 32, 32))
+			kind := []string{"honest", "cancellingOutsideG2", "smallOrderAnnihilated", "notInG2"}[g.Pick("vectorKind", 4)]
+			rec := &vssRecorder{shares: make([][]byte, n)}
+			inst, err := crypto.NewFeldmanVSS(n, th, me, rec, dealer)
+			if err != nil {
+				g.Fatalf("NewFeldmanVSS: %v", err)
+			}
+			_ = inst.Start(nil)
+			v, sh := vssVector(g, kind, hon, hon, th, me, swapped), vssShare("honest", hon, hon, me)
+			if g.Bool("shareFirst") {
+				_ = inst.HandlePrivateMsg(dealer, sh)
+				_ = inst.HandleBroadcastMsg(dealer, v)
+			} else {
+				_ = inst.HandleBroadcastMsg(dealer, v)
+				_ = inst.HandlePrivateMsg(dealer, sh)
+			}
+			x, gpk, pks, err := inst.End()
+			if err == nil {
+				if sk2, e := crypto.DecodePrivateKey(crypto.BLSBLS12381, x.Encode()); e != nil || !sk2.Equals(x) {
+					g.Fatalf("DKG private share does not round-trip: %v", e)
+				}
+				for i, pk := range append(append([]crypto.PublicKey{}, pks...), gpk) {
+					pk2, e := crypto.DecodePublicKey(crypto.BLSBLS12381, pk.Encode())
+					if e != nil || !pk2.Equals(pk) {
+						g.Fatalf("public key #%d returned by a Feldman VSS End (vector kind %s) does not decode back: %x: %v", i, kind, pk.Encode(), e)
+					}
+					if pt, e := bls381.G2Decompress(pk.Encode(), swapped); e != nil || !pt.InSubgroup() {
+						g.Fatalf("public key #%d returned by a Feldman VSS End (vector kind %s) is not a G2 element: %x", i, kind, pk.Encode())
+					}
+				}
+				g.Class("produced:dkgKeys:" + kind)
+			} else {
+				g.Class("produced:dkgRefused:" + kind)
+			}
 		case 0: // BLS keys: generated / decoded / aggregated
 			k := drawKey(g, "key")
 			if k.x.Sign() != 0 {
